@@ -9,7 +9,7 @@ HEADER_WORDS = irgen.WORDS
 TOKEN_ALPHABET = (
     "\n", "    ", " ", ":param ", ":type ", ":return:", ":rtype:", ":returns:", "Args:", "Returns:", "Raises:",
     "Parameters\n----------", "Returns\n-------", "Kwargs:", "Attributes:", "x", "y :", " int", "(int)", "```", "`", ":",
-    "Defaults to ", "5", ".", "Optional[str]", "*args", "**kwargs", "-------", "word", ">>> f()", "Usage:", "",
+    "Defaults to ", "5", ".", "Optional[str]", "*args", "**kwargs", "-------", "word", ">>> f()", "Usage:", "", "'", '"',
 )
 
 
